@@ -174,7 +174,41 @@ class Assembler:
                     break
             else:
                 raise Unsupported('template has no `} // verus!` line')
-        return '\n'.join(out) + '\n'
+        text = '\n'.join(out) + '\n'
+        self._index_proof_fns(text)
+        return text
+
+    def _index_proof_fns(self, text):
+        """Template-written lemmas (`proof fn`): record their line ranges so that a failed lemma is attributed by name."""
+        lines = text.split('\n')
+        m = mask(text)
+        offs = [0]
+        for l in lines:
+            offs.append(offs[-1] + len(l) + 1)
+        for idx, l in enumerate(lines):
+            mm = re.match(r'^(\s*)(?:pub\s+)?(?:broadcast\s+)?proof\s+fn\s+(\w+)', l)
+            if not mm:
+                continue
+            ln = idx + 1
+            if any(a <= ln <= b for a, b, _ in self.fn_lines):
+                continue
+            indent = mm.group(1)
+            # the body opens on the first following line that starts (at the lemma's indentation) with '{'
+            j = idx
+            while j < len(lines) and not (lines[j].startswith(indent + '{') and (j > idx)):
+                if j > idx and re.match(r'^\s*(?:pub\s+)?(?:\w+\s+)*fn\s', lines[j]):
+                    j = len(lines)
+                    break
+                j += 1
+            if j >= len(lines):
+                continue
+            o = offs[j] + len(indent)
+            try:
+                c = match_close(m, o)
+            except Exception:
+                continue
+            end = text.count('\n', 0, c) + 1
+            self.fn_lines.append((ln, end, mm.group(2)))
 
     @staticmethod
     def _project(txt, keep):
